@@ -74,13 +74,23 @@ func category(m mv, stm int) int {
 // stepInstances builds the case split for the one-step harnesses. thorough: every geometric move. quick: all
 // castling and double-push cases, and a seeded sample of each other category.
 func stepInstances(fn string, tier string, seed int64, hist int64, scale int, extra map[string]int64) []run.Instance {
+	return stepInstancesDiv(fn, tier, seed, hist, scale, 1, extra)
+}
+
+// stepInstancesDiv divides the quick-tier sampling rates (except castling and a1-promotions) by div.
+func stepInstancesDiv(fn string, tier string, seed int64, hist int64, scale, div int, extra map[string]int64) []run.Instance {
 	var out []run.Instance
 	rng := rand.New(rand.NewSource(seed + 12345))
 	// sampling rate per category in percent (quick tier)
 	rate := map[int]int{0: 1 * scale, 1: 100, 2: 12 * scale, 3: 50, 4: 25 * scale, 5: 3 * scale, 6: 10 * scale, 7: 100}
 	for stm := 0; stm < 2; stm++ {
 		for _, m := range geomMoves(stm) {
-			if tier != "thorough" && rng.Intn(100) >= rate[category(m, stm)] {
+			cat := category(m, stm)
+			r := rate[cat] * 10
+			if cat != 1 && cat != 7 {
+				r /= div
+			}
+			if tier != "thorough" && rng.Intn(1000) >= r {
 				continue
 			}
 			p := map[string]int64{"stm": int64(stm), "from": int64(m.from), "to": int64(m.to), "promo": int64(m.promo), "hist": hist}
@@ -140,7 +150,7 @@ func init() {
 			"halfmove clock 0..127, fullmove number 1..2^31-1",
 		}
 		s.Exclusions = []string{"fifty-clock-wrap"}
-		s.Instances = stepInstances("VpH_C02_step", tier, seed, 2, 1, nil)
+		s.Instances = stepInstancesDiv("VpH_C02_step", tier, seed, 2, 1, 2, nil)
 		s.Witnesses = map[string]run.Instance{
 			"fifty-clock-wrap": {Pkg: "board", Func: "VpH_C02_step", Params: map[string]int64{"stm": 0, "from": 6, "to": 21, "promo": 0, "hist": 2}},
 		}
